@@ -10,6 +10,7 @@ PERFORMANCE OPTIMIZED:
 
 import json as _stdlib_json
 import logging
+import re
 from typing import Any, Union
 
 logger = logging.getLogger(__name__)
@@ -23,6 +24,22 @@ try:
 except ImportError:
     HAS_ORJSON = False
     logger.debug("orjson not available - using stdlib json")
+
+
+# orjson reads an integer outside the 64-bit range as a float and so silently loses
+# digits, while the stdlib decoder keeps it exact (and dumps() already falls back to
+# the stdlib for such integers). A document that may hold one - a run of 19 or more
+# digits - is therefore decoded by the stdlib.
+_WIDE_DIGITS_STR = re.compile(r"[0-9]{19}")
+_WIDE_DIGITS_BYTES = re.compile(rb"[0-9]{19}")
+
+
+def _may_hold_wide_integer(s: Any) -> bool:
+    if isinstance(s, str):
+        return _WIDE_DIGITS_STR.search(s) is not None
+    if isinstance(s, (bytes, bytearray)):
+        return _WIDE_DIGITS_BYTES.search(s) is not None
+    return False
 
 
 def dumps(obj: Any, **kwargs) -> str:
@@ -73,7 +90,7 @@ def loads(s: Union[str, bytes]) -> Any:
     Returns:
         Python object
     """
-    if HAS_ORJSON:
+    if HAS_ORJSON and not _may_hold_wide_integer(s):
         # orjson.loads accepts both str and bytes
         try:
             return _orjson.loads(s)
@@ -85,8 +102,8 @@ def loads(s: Union[str, bytes]) -> Any:
             return _stdlib_json.loads(s)
     else:
         # Use stdlib json
-        if isinstance(s, bytes):
-            s = s.decode("utf-8")
+        if isinstance(s, (bytes, bytearray)):
+            s = bytes(s).decode("utf-8")
         return _stdlib_json.loads(s)
 
 
@@ -132,6 +149,8 @@ def load(fp) -> Any:
     if HAS_ORJSON:
         try:
             content = fp.read()
+            if _may_hold_wide_integer(content):
+                return loads(content)
             return _orjson.loads(content)
         except Exception as e:
             logger.debug(f"orjson failed, falling back to stdlib json: {e}")
